@@ -134,12 +134,12 @@ Init == S = InitOf(Setup)
 \* pr: priority of the subscription that matched at send time ("N" for direct tell / broadcast); ud: that subscription's pattern ("" = none)
 \* uv: version of the subscription's userdata the handler gets; bound when the message is taken from the mailbox (the library reads the
 \* subscription object then), 0 until then
-Msg(p, from, topic, sys) == [p |-> p, from |-> from, topic |-> topic, sys |-> sys, pr |-> "N", ud |-> "", os |-> FALSE, uv |-> 0]
+Msg(p, from, topic, sys) == [p |-> p, from |-> from, topic |-> topic, sys |-> sys, pr |-> "N", ud |-> "", os |-> FALSE, sg |-> 0, uv |-> 0]
 
 HasSrc(s, m, k, key) == \E x \in s.mod[m].src : x.k = k /\ x.key = key
 SrcOf(s, m, k, key) == CHOOSE x \in s.mod[m].src : x.k = k /\ x.key = key
 \* the event of a descriptor / timer source: no payload, the topic field carries "F<key>" / "T<key>", userdata = the key
-SrcEvt(k, key) == [p |-> 0, from |-> k, topic |-> "", sys |-> FALSE, pr |-> "N", ud |-> key, os |-> FALSE, uv |-> 0]
+SrcEvt(k, key) == [p |-> 0, from |-> k, topic |-> "", sys |-> FALSE, pr |-> "N", ud |-> key, os |-> FALSE, sg |-> 0, uv |-> 0]
 
 \* one copy of payload p disappears (delivered-and-released, discarded, or never written)
 Release1(pay, p) ==
@@ -165,7 +165,7 @@ Deliver(s, rs, msg) ==      \* rs: sequence of recipients; a message with a topi
     IF rs = <<>> THEN s
     ELSE LET r == Head(rs)
              m1 == IF msg.topic \in {"", "PILL"} THEN msg
-                   ELSE LET q == SubFor(s, r, msg.topic) IN [msg EXCEPT !.pr = q.pr, !.ud = q.pat, !.os = q.os]
+                   ELSE LET q == SubFor(s, r, msg.topic) IN [msg EXCEPT !.pr = q.pr, !.ud = q.pat, !.os = q.os, !.sg = q.g]
          IN
          IF Len(s.mod[r].pipe) < Cap
            THEN Deliver([s EXCEPT !.mod[r].pipe = Append(s.mod[r].pipe, m1)], Tail(rs), msg)
@@ -347,9 +347,10 @@ Step(s) ==
                                 s1 == [rest EXCEPT !.mod[x].pipe = Tail(r.mod[x].pipe)]
                             IN IF msg.topic = "PILL"
                                  THEN Push([s1 EXCEPT !.pay = Release1(s1.pay, msg.p)], Fr("stop", x, TRUE, 0))
-                                 \* a message that came through a one-shot subscription removes that subscription (by its own
-                                 \* pattern, which for a regular expression differs from the message's topic)
-                                 ELSE PushEvt(IF msg.os THEN [s1 EXCEPT !.mod[x].subs = {q \in @ : q.pat # msg.ud}] ELSE s1, x, msg)
+                                 \* a message that came through a one-shot subscription removes that subscription (found by its own
+                                 \* pattern, which for a regular expression differs from the message's topic) - that very subscription
+                                 \* object (.g): one that has replaced it since is another subscription and stays
+                                 ELSE PushEvt(IF msg.os THEN [s1 EXCEPT !.mod[x].subs = {q \in @ : ~(q.pat = msg.ud /\ q.g = msg.sg)}] ELSE s1, x, msg)
                     \* the source was deregistered earlier in this batch (a source registered since under the same key is another
                     \* source: what was pending in the old one's descriptor went with it)
                     ELSE IF ~HasSrc(r, x, e[2], e[3]) \/ ~StillPending(r, e) THEN Push(r, [f EXCEPT !.b = Tail(f.b)])
@@ -544,7 +545,13 @@ Pill(m, r) ==
 Subscribe(m, q, pr, os, u) ==
     /\ Can("Subscribe") /\ m \in SubTargets /\ Handle(m) /\ q \in Pats /\ pr \in Prios /\ os \in SubOneshot /\ u \in UdVals
     /\ IF SubRefused(m) THEN Refuse(NEG)
-       ELSE Rated(m, [S EXCEPT !.mod[m].subs = {x \in @ : x.pat # q} \cup {[pat |-> q, pr |-> pr, os |-> os, u |-> u]}, !.ret = 0])
+       \* the same flags: the subscription object stays and gets the new userdata; other flags (or none yet): a new object (.g tells
+       \* it from the object it replaces and from those that messages still waiting in the mailbox came through)
+       ELSE LET olds == {x \in S.mod[m].subs : x.pat = q}
+                same == {x \in olds : x.pr = pr /\ x.os = os}
+                used == {x.g : x \in olds} \cup {S.mod[m].pipe[i].sg : i \in {j \in 1..Len(S.mod[m].pipe) : S.mod[m].pipe[j].ud = q}}
+                g == IF same # {} THEN (CHOOSE x \in same : TRUE).g ELSE CHOOSE n \in 0..(Cap + 1) : n \notin used /\ \A k \in 0..(Cap + 1) : k \notin used => n <= k
+            IN Rated(m, [S EXCEPT !.mod[m].subs = {x \in @ : x.pat # q} \cup {[pat |-> q, pr |-> pr, os |-> os, u |-> u, g |-> g]}, !.ret = 0])
 
 Unsubscribe(m, q) ==
     /\ Can("Unsubscribe") /\ m \in SubTargets /\ Handle(m) /\ q \in Pats
